@@ -1,10 +1,214 @@
 /-
   C16 — Poly: element-wise ring arithmetic, sequence indexing, consistent re-chunking.
--/
-import Model.Poly
-namespace Proofs.C16
-open Model Model.Poly
+  ONLY property theorems (and their non-vacuity examples) live here; helper lemmas are in Proofs/Lemmas/PolyL*.lean.
 
-theorem zeros_dim (k d : Nat) : (zeros k d).dim = d := by simp [zeros, dim]
+  Conventions: `a.e i` is coefficient i of `a` (0 beyond the dimension, exactly like `SubPoly.e`), `a.size = k` is the ring
+  Z/2^k (k = 0: the integers), `WF a` says every stored coefficient lies in [0,2^k) when k > 0.  Every constructor and
+  every operation preserves WF (section "invariant"), so WF is a fact about every Poly the library hands out.
+-/
+import Proofs.Lemmas.PolyL
+namespace Proofs.C16
+open Model Model.Poly Model.Py Proofs.PolyL
+
+/-! ## binary operators + − ^ & | -/
+
+/-- an operator is defined exactly on operands over the same ring (`assert self.size==rvalue.size`) -/
+theorem binop_defined (op : BinOp) (a b : Poly) : (∃ r, binop op a b = .ok r) ↔ a.size = b.size := by
+  constructor
+  · rintro ⟨r, h⟩; exact (binop_inv h).1
+  · intro h; exact ⟨_, binop_ok h⟩
+
+/-- the result lives in the same ring and has the longer dimension -/
+theorem binop_dim {op : BinOp} {a b r : Poly} (h : binop op a b = .ok r) :
+    r.size = a.size ∧ r.dim = max a.dim b.dim :=
+  ⟨(binop_inv h).2.1, (binop_inv h).2.2.1⟩
+
+/-- `+` over Z/2^k, k > 0: coefficient by coefficient modulo 2^k; a missing coefficient of the shorter operand is 0
+    (`e` is 0 beyond the dimension), for every index i (in particular i < max(dim a, dim b)) -/
+theorem add_coeff {a b r : Poly} (hk : 0 < a.size) (h : binop .add a b = .ok r) (i : Nat) :
+    r.e i = (a.e i + b.e i) % (2:Int)^a.size := by
+  rw [binop_e h]
+  split
+  · simp [coeffOp, red_pos hk]
+  · rename_i hi
+    rw [e_ge a (by omega), e_ge b (by omega)]; simp
+
+/-- `−` over Z/2^k, k > 0 -/
+theorem sub_coeff {a b r : Poly} (hk : 0 < a.size) (h : binop .sub a b = .ok r) (i : Nat) :
+    r.e i = (a.e i - b.e i) % (2:Int)^a.size := by
+  rw [binop_e h]
+  split
+  · simp [coeffOp, red_pos hk]
+  · rename_i hi
+    rw [e_ge a (by omega), e_ge b (by omega)]; simp
+
+/-- `+` over the integers (k = 0) -/
+theorem add_coeff_Z {a b r : Poly} (hk : a.size = 0) (h : binop .add a b = .ok r) (i : Nat) :
+    r.e i = a.e i + b.e i := by
+  rw [binop_e h]
+  split
+  · simp [coeffOp, hk, red_zero]
+  · rename_i hi
+    rw [e_ge a (by omega), e_ge b (by omega)]; simp
+
+/-- `−` over the integers (k = 0) -/
+theorem sub_coeff_Z {a b r : Poly} (hk : a.size = 0) (h : binop .sub a b = .ok r) (i : Nat) :
+    r.e i = a.e i - b.e i := by
+  rw [binop_e h]
+  split
+  · simp [coeffOp, hk, red_zero]
+  · rename_i hi
+    rw [e_ge a (by omega), e_ge b (by omega)]; simp
+
+/-- `+` on the natural-number values of the coefficients (k > 0) -/
+theorem add_coeff_nat {a b r : Poly} (hk : 0 < a.size) (ha : a.WF) (hb : b.WF)
+    (h : binop .add a b = .ok r) (i : Nat) :
+    (r.e i).toNat = ((a.e i).toNat + (b.e i).toNat) % 2^a.size := by
+  have hs := (binop_inv h).1
+  have h1 := (WF_e ha hk i).1
+  have h2 := (WF_e hb (hs ▸ hk) i).1
+  rw [add_coeff hk h, toNat_emod_pow _ _ (by omega), Int.toNat_add h1 h2]
+
+/-- `−` on the natural-number values (k > 0): x − y mod 2^k = (x + (2^k − y)) mod 2^k -/
+theorem sub_coeff_nat {a b r : Poly} (hk : 0 < a.size) (ha : a.WF) (hb : b.WF)
+    (h : binop .sub a b = .ok r) (i : Nat) :
+    (r.e i).toNat = ((a.e i).toNat + (2^a.size - (b.e i).toNat)) % 2^a.size := by
+  have hs := (binop_inv h).1
+  have h1 := (WF_e ha hk i).1
+  have h2 := WF_e hb (hs ▸ hk) i
+  rw [← hs] at h2
+  have hlt := toNat_lt_pow h2.1 h2.2
+  rw [sub_coeff hk h]
+  have e1 : (a.e i - b.e i) % (2:Int)^a.size = (a.e i + ((2:Int)^a.size - b.e i)) % (2:Int)^a.size := by
+    have : a.e i + ((2:Int)^a.size - b.e i) = (a.e i - b.e i) + (2:Int)^a.size := by omega
+    rw [this, Int.add_emod_right]
+  rw [e1, toNat_emod_pow _ _ (by omega), Int.toNat_add h1 (by omega)]
+  congr 2
+  have : ((2:Int)^a.size) = ((2^a.size : Nat) : Int) := by simp
+  rw [this]
+  omega
+
+/-- `&` on the natural-number values (k > 0) -/
+theorem and_coeff_nat {a b r : Poly} (hk : 0 < a.size) (ha : a.WF)
+    (h : binop .and a b = .ok r) (i : Nat) :
+    (r.e i).toNat = ((a.e i).toNat &&& (b.e i).toNat) % 2^a.size := by
+  have hs := (binop_inv h).1
+  have h1 := WF_e ha hk i
+  rw [bit_coeff (f := (· &&& ·)) (by intro x y; simp [coeffOp, Nat.ne_of_gt hk]) (by simp) h, Int.toNat_natCast]
+  exact (Nat.mod_eq_of_lt (Nat.lt_of_le_of_lt Nat.and_le_left (toNat_lt_pow h1.1 h1.2))).symm
+
+/-- `|` on the natural-number values (k > 0) -/
+theorem or_coeff_nat {a b r : Poly} (hk : 0 < a.size) (ha : a.WF) (hb : b.WF)
+    (h : binop .or a b = .ok r) (i : Nat) :
+    (r.e i).toNat = ((a.e i).toNat ||| (b.e i).toNat) % 2^a.size := by
+  have hs := (binop_inv h).1
+  have h1 := WF_e ha hk i
+  have h2 := WF_e hb (hs ▸ hk) i
+  rw [← hs] at h2
+  rw [bit_coeff (f := (· ||| ·)) (by intro x y; simp [coeffOp, Nat.ne_of_gt hk]) (by simp) h, Int.toNat_natCast]
+  exact (Nat.mod_eq_of_lt (Nat.or_lt_two_pow (toNat_lt_pow h1.1 h1.2) (toNat_lt_pow h2.1 h2.2))).symm
+
+/-- `^` on the natural-number values (k > 0) -/
+theorem xor_coeff_nat {a b r : Poly} (hk : 0 < a.size) (ha : a.WF) (hb : b.WF)
+    (h : binop .xor a b = .ok r) (i : Nat) :
+    (r.e i).toNat = ((a.e i).toNat ^^^ (b.e i).toNat) % 2^a.size := by
+  have hs := (binop_inv h).1
+  have h1 := WF_e ha hk i
+  have h2 := WF_e hb (hs ▸ hk) i
+  rw [← hs] at h2
+  rw [bit_coeff (f := (· ^^^ ·)) (by intro x y; simp [coeffOp, Nat.ne_of_gt hk]) (by simp) h, Int.toNat_natCast]
+  exact (Nat.mod_eq_of_lt (Nat.xor_lt_two_pow (toNat_lt_pow h1.1 h1.2) (toNat_lt_pow h2.1 h2.2))).symm
+
+
+theorem binop_comm {op : BinOp} (hop : op ≠ .sub) (a b : Poly) : binop op a b = binop op b a := by
+  by_cases h : a.size = b.size
+  · rw [binop_ok h, binop_ok h.symm, Nat.max_comm b.dim, ← h]
+    congr 2
+    apply List.map_congr_left
+    intro j _
+    exact coeffOp_comm hop _ _ _
+  · rw [binop_err h, binop_err (Ne.symm h)]
+
+theorem binop_WF {op : BinOp} {a b r : Poly} (ha : a.WF) (hb : b.WF) (h : binop op a b = .ok r) : r.WF := by
+  obtain ⟨hs, hrs, hd, hc⟩ := binop_inv h
+  by_cases hk : a.size = 0
+  · exact Or.inl (hrs.trans hk)
+  · have hk' : 0 < a.size := Nat.pos_of_ne_zero hk
+    apply WF_of_e
+    intro i hi
+    rw [hc i (hd ▸ hi), hrs]
+    have hb' := WF_e hb (hs ▸ hk') i
+    rw [← hs] at hb'
+    exact coeffOp_range hk' (WF_e ha hk' i) hb'
+
+theorem binop_empty (op : BinOp) (k : Nat) : binop op ⟨[], k⟩ ⟨[], k⟩ = .ok ⟨[], k⟩ := by
+  simp [binop, dim]
+
+theorem neg_WF (a : Poly) : (neg a).WF := WF_map_red a.ival a.size (fun x => -x)
+
+theorem neg_size (a : Poly) : (neg a).size = a.size := rfl
+
+theorem neg_dim (a : Poly) : (neg a).dim = a.dim := by simp [neg, dim]
+
+theorem neg_coeff (a : Poly) (i : Nat) : (neg a).e i = red a.size (-(a.e i)) := by
+  have := e_map a.ival a.size (fun x => red a.size (-x)) (by simp [red]) i
+  simpa [neg] using this
+
+theorem add_neg (a : Poly) : binop .add a (neg a) = .ok (zeros a.size a.dim) := by
+  rw [binop_ok (neg_size a).symm]
+  congr 1
+  refine ext_e (by simp [zeros]) (by simp [dim, zeros, neg]) ?_
+  · intro i hi
+    have hi' : i < max a.dim (neg a).dim := by simpa [dim] using hi
+    simp only [e]
+    rw [getD_map_range _ _ _ hi']
+    show coeffOp .add a.size (a.e i) ((neg a).e i) = (zeros a.size a.dim).e i
+    rw [neg_coeff]
+    have hz : (zeros a.size a.dim).e i = 0 := by
+      simp only [zeros, e, List.getD_eq_getElem?_getD, List.getElem?_replicate]
+      split <;> rfl
+    rw [hz]
+    simp only [coeffOp, red]
+    split
+    · omega
+    · rw [Int.add_emod_emod]
+      rw [Int.add_right_neg]; exact Int.zero_emod _
+
+theorem shl_dim (a : Poly) (n : Nat) : (a.shl n).dim = a.dim ∧ (a.shl n).size = a.size := by simp [shl, dim]
+
+theorem shr_dim (a : Poly) (n : Nat) : (a.shr n).dim = a.dim ∧ (a.shr n).size = a.size := by simp [shr, dim]
+
+theorem shl_WF (a : Poly) (n : Nat) : (a.shl n).WF := WF_map_red a.ival a.size (fun x => x * (2:Int)^n)
+
+theorem shr_WF (a : Poly) (n : Nat) : (a.shr n).WF := WF_map_red a.ival a.size (fun x => Int.shiftRight x n)
+
+theorem shl_coeff (a : Poly) (n i : Nat) : (a.shl n).e i = red a.size (a.e i * (2:Int)^n) := by
+  have := e_map a.ival a.size (fun x => red a.size (x * (2:Int)^n)) (by simp [red]) i
+  simpa [shl] using this
+
+theorem shr_coeff (a : Poly) (n i : Nat) : (a.shr n).e i = red a.size (a.e i / (2:Int)^n) := by
+  have := e_map a.ival a.size (fun x => red a.size (Int.shiftRight x n)) (by simp [red, ← Int.shiftRight_eq]) i
+  simp only [← Int.shiftRight_eq, Int.shiftRight_eq_div_pow] at this
+  simpa [shr, ← Int.shiftRight_eq, Int.shiftRight_eq_div_pow] using this
+
+theorem shl_coeff_nat {a : Poly} (hk : 0 < a.size) (ha : a.WF) (n i : Nat) :
+    ((a.shl n).e i).toNat = ((a.e i).toNat <<< n) % 2^a.size := by
+  have h1 := (WF_e ha hk i).1
+  obtain ⟨x, hx⟩ := Int.eq_ofNat_of_zero_le h1
+  rw [shl_coeff, red_pos hk, hx]
+  have : (x:Int) * (2:Int)^n = ((x * 2^n : Nat) : Int) := by simp
+  rw [this, toNat_emod_pow _ _ (Int.natCast_nonneg _), Int.toNat_natCast, Int.toNat_natCast, Nat.shiftLeft_eq]
+
+theorem shr_coeff_nat {a : Poly} (hk : 0 < a.size) (ha : a.WF) (n i : Nat) :
+    ((a.shr n).e i).toNat = (a.e i).toNat >>> n := by
+  have h1 := WF_e ha hk i
+  have hlt := toNat_lt_pow h1.1 h1.2
+  rw [shr_coeff, red_pos hk]
+  generalize a.e i = y at *
+  obtain ⟨x, rfl⟩ := Int.eq_ofNat_of_zero_le h1.1
+  have : (x:Int) / (2:Int)^n = ((x / 2^n : Nat) : Int) := by simp
+  rw [this, toNat_emod_pow _ _ (Int.natCast_nonneg _), Int.toNat_natCast, Int.toNat_natCast, Nat.shiftRight_eq_div_pow]
+  rw [Int.toNat_natCast] at hlt
+  exact Nat.mod_eq_of_lt (Nat.lt_of_le_of_lt (Nat.div_le_self _ _) hlt)
 
 end Proofs.C16
